@@ -3,12 +3,15 @@
 applies the diff to /repo, runs `govc check ID --no-evidence`, reverts. Records /verif/seeded/<ID>/<mutant>/."""
 import sys, os, subprocess, json, glob, shutil, re
 ID, wt = sys.argv[1], sys.argv[2]
+# the tree the mutant is applied to: /repo itself, or (SEED_REPO) a scratch worktree of /repo at the same commit,
+# which lets other work go on in /repo meanwhile; the check is pointed at it with --repo
+REPO = os.environ.get('SEED_REPO', '/repo')
 checks = sys.argv[3:] or [ID]
 conf = {r['mutant']: r for r in json.load(open(os.path.join(wt, 'mutants', 'confirm.json')))}
 def sh(cmd, cwd='/verif'):
     r = subprocess.run(cmd, shell=True, cwd=cwd, capture_output=True, text=True)
     return r.returncode, r.stdout + r.stderr
-assert sh('git -C /repo status --porcelain --untracked-files=no')[1].strip() == '', 'repo dirty'
+assert sh(f'git -C {REPO} status --porcelain --untracked-files=no')[1].strip() == '', 'repo dirty'
 for diff in sorted(glob.glob(os.path.join(wt, 'mutants', 'm*.diff'))):
     n = os.path.basename(diff)[:-5]
     c = conf.get(n, {})
@@ -20,20 +23,20 @@ for diff in sorted(glob.glob(os.path.join(wt, 'mutants', 'm*.diff'))):
     if os.path.exists(demo): shutil.copy(demo, os.path.join(d, 'demo_test.go'))
     md = os.path.join(wt, 'mutants', n + '.md')
     desc = open(md).read() if os.path.exists(md) else ''
-    rc, o = sh(f'git -C /repo apply {diff}')
+    rc, o = sh(f'git -C {REPO} apply {diff}')
     res = {}
     if rc != 0:
         res['apply_error'] = o[-500:]
     else:
         for cid in checks:
-            rc, o = sh(f'bin/govc check {cid} --no-evidence')
+            rc, o = sh(f'bin/govc check {cid} --no-evidence --repo {REPO}')
             viol = [l for l in o.splitlines() if l.startswith('VIOLATION')]
             res[cid] = {'exit': rc, 'violations': [re.sub(r' replay=\S+', '', v)[:300] for v in viol], 'summary': o.strip().splitlines()[-1][:200] if o.strip() else ''}
-        sh('git -C /repo checkout -- .')
+        sh(f'git -C {REPO} checkout -- .')
     meta = {'property': ID, 'mutant': n, 'source': 'independent sub-agent given only the property text', 'files': c.get('files'),
             'demo_package': c.get('demo_pkg'), 'confirmed': {'demo_passes_on_clean_tree': c.get('demo_passes_clean'), 'existing_tests_pass_with_change': c.get('existing_tests_pass'), 'demo_fails_with_change': c.get('demo_fails_mutated')},
             'kept': bool(ok), 'description': desc[:3000], 'check_results': res,
-            'what_i_ran': f'tools/seedconfirm.py {ID} <worktree> (go build, go test of touched packages, demo with/without change); tools/seedrun.py: git -C /repo apply patch.diff; bin/govc check <ID>; git -C /repo checkout -- .'}
+            'what_i_ran': f'tools/seedconfirm.py {ID} <worktree> (go build, the whole existing suite go test ./... with failing packages re-run once, demo with/without change); tools/seedrun.py: git -C <repo> apply patch.diff; bin/govc check <ID> --repo <repo>; git -C <repo> checkout -- . (<repo> = ' + REPO + ', a worktree of /repo at ' + sh(f'git -C {REPO} rev-parse --short HEAD')[1].strip() + ')'}
     json.dump(meta, open(os.path.join(d, 'meta.json'), 'w'), indent=1)
     caught = any(v.get('exit') == 1 for v in res.values() if isinstance(v, dict))
     print(ID, n, 'CAUGHT' if caught else 'MISSED', '|', (desc.splitlines() or [''])[0][:100], '|', [ (k, v.get('violations', [])[:1]) for k, v in res.items() if isinstance(v, dict)][:2] if caught else res.get('apply_error',''))
